@@ -96,7 +96,8 @@ def script(src, which, skip=()):
             ch[0].args.append('{added%d}' % which)
         else:
             soup.append(' tail%d' % which)
-        return obs(soup) + (tuple(str(t) for t in soup.text)[:5],)
+        # a later parse (of the edited text) is an observation too
+        return obs(soup) + (tuple(str(t) for t in soup.text)[:5],) + parse_obs(str(soup))
     return [s0, s1, s2]
 
 
@@ -159,55 +160,104 @@ class C17(Prop):
                 for c in ['|', '.', '(', ')', '[', ']', '<', '>', '\\{', '\\}', 'x', ' ']:
                     if d in ('.', '|', '\\langle', '('):
                         out.append('$\\%s%s%s y$' % (pre, d, c))
+        for pre in docgen.SIZING:
+            for nd in ('x', '/', '\\Vert', ' (', '\\|', '1', ''):
+                out.append('$\\%s%s v$' % (pre, nd))
         out += common.WITNESSES
         return out
 
-    def post_run(self, tier, seed, merged, scratch):
-        seeds = list(range(8)) if tier == 'quick' else list(range(64))
-        corpus = self.corpus(tier, seed)
-        cpath = os.path.join(scratch, 'hs-corpus.json')
-        json.dump(corpus, open(cpath, 'w'))
-        procs = []
-        for s in seeds:
-            out = os.path.join(scratch, 'hs-%d.json' % s)
-            e = dict(os.environ, PYTHONHASHSEED=str(s), PYTHONPATH=env.VERIF,
+    def _children(self, scratch, cpath, jobs):
+        """jobs: [(tag, hashseed, order_seed|None)] -> {tag: result dict}"""
+        procs, res = [], {}
+        for n, (tag, hs, order) in enumerate(jobs):
+            out = os.path.join(scratch, 'hs-%s.json' % tag)
+            e = dict(os.environ, PYTHONHASHSEED=str(hs), PYTHONPATH=env.VERIF,
                      PYTHONDONTWRITEBYTECODE='1')
-            procs.append((s, out, subprocess.Popen(
-                [env.PYTHON, '-B', '-m', 'tsv.props.c17_child', cpath, out],
-                cwd=env.VERIF, env=e)))
+            cmd = [env.PYTHON, '-B', '-m', 'tsv.props.c17_child', cpath, out]
+            if order is not None:
+                cmd.append(str(order))
+            procs.append((tag, out, subprocess.Popen(cmd, cwd=env.VERIF, env=e)))
             if len(procs) % 16 == 0:
                 for _, _, p in procs[-16:]:
                     p.wait()
-        logs = {}
-        for s, out, p in procs:
+        for tag, out, p in procs:
             p.wait()
-            if p.returncode != 0 or not os.path.exists(out):
-                merged['harness_errors'].append({'k': -1, 'trace': 'hash-seed child %d failed' % s})
-                continue
-            logs[s] = json.load(open(out))
+            if p.returncode == 0 and os.path.exists(out):
+                res[tag] = json.load(open(out))
+        return res
+
+    def post_run(self, tier, seed, merged, scratch):
+        q = tier == 'quick'
+        seeds = list(range(8)) if q else list(range(64))
+        orders = list(range(1, 7)) if q else list(range(1, 17))
+        corpus = self.corpus(tier, seed)
+        cpath = os.path.join(scratch, 'hs-corpus.json')
+        json.dump(corpus, open(cpath, 'w'))
+        jobs = [('seed%d' % s, s, None) for s in seeds] + \
+               [('order%d' % o, 0, o) for o in orders]
+        logs = self._children(scratch, cpath, jobs)
+        missing = [t for t, _, _ in jobs if t not in logs]
+        if missing:
+            merged['harness_errors'].append({'k': -1, 'trace': 'sweep children failed: %s' % missing[:5]})
+        c = merged['counters']
+        c['hashseed_interpreters'] = sum(1 for t in logs if t.startswith('seed'))
+        c['order_interpreters'] = sum(1 for t in logs if t.startswith('order'))
+        c['hashseed_corpus_cases'] = len(corpus)
+        c['sweep_digests_compared'] = len(corpus) * len(logs)
         extra = []
-        merged['counters']['hashseed_interpreters'] = len(logs)
-        merged['counters']['hashseed_corpus_cases'] = len(corpus)
-        merged['counters']['hashseed_digests_compared'] = len(corpus) * len(logs)
-        if len(logs) < 2:
+        base = logs.get('seed0')
+        if base is None:
             return extra
-        base_seed = sorted(logs)[0]
-        reported = 0
+        # (ii) same order, different hash seeds
+        n = 0
         for i, src in enumerate(corpus):
-            vals = {s: logs[s][i] for s in logs}
-            if len(set(vals.values())) > 1:
-                other = next(s for s in vals if vals[s] != vals[base_seed])
-                rec = {'k': -1, 'payload': {'w': 'hashseed', 'src': src,
-                                            'seeds': [base_seed, other]},
-                       'failures': [fail('hash-seed-dependent',
-                                         'parsing %s gives different results under PYTHONHASHSEED=%d and %d'
-                                         % (short(repr(src), 80), base_seed, other))],
-                       'known': None}
-                extra.append(rec)
-                reported += 1
-                if reported >= 5:
+            for s in seeds[1:]:
+                lg = logs.get('seed%d' % s)
+                if lg and lg['digests'][i] != base['digests'][i]:
+                    extra.append({'k': -1, 'payload': {'w': 'hashseed', 'src': src, 'seeds': [0, s]},
+                                  'failures': [fail('hash-seed-dependent',
+                                                    'parsing %s gives different results under PYTHONHASHSEED=0 and %d'
+                                                    % (short(repr(src), 80), s))], 'known': None})
+                    n += 1
                     break
+            if n >= 4:
+                break
+        # (iii') same hash seed, different order of the same corpus: any
+        # difference means an earlier parse influenced a later one
+        n = 0
+        for i, src in enumerate(corpus):
+            for o in orders:
+                lg = logs.get('order%d' % o)
+                if lg and lg['digests'][i] != base['digests'][i]:
+                    pos = lg['order'].index(i)
+                    before = [corpus[x] for x in lg['order'][:pos]]
+                    extra.append({'k': -1, 'payload': {'w': 'history', 'src': src,
+                                                       'before': before[-3000:]},
+                                  'failures': [fail('history-dependent',
+                                                    'parsing %s gives a different result after %d other parses than in '
+                                                    'corpus order (same hash seed, same interpreter version)'
+                                                    % (short(repr(src), 80), pos))], 'known': None})
+                    n += 1
+                    break
+            if n >= 4:
+                break
         return extra
+
+    def check_history(self, p, ctx):
+        """replay of a history finding: the source alone vs after its predecessors"""
+        outs = []
+        for corpus in ([p['src']], list(p['before']) + [p['src']]):
+            with tempfile.TemporaryDirectory(prefix='tsv-c17-') as d:
+                cp, op = os.path.join(d, 'c.json'), os.path.join(d, 'o.json')
+                json.dump(corpus, open(cp, 'w'))
+                subprocess.run([env.PYTHON, '-B', '-m', 'tsv.props.c17_child', cp, op],
+                               cwd=env.VERIF, check=True,
+                               env=dict(os.environ, PYTHONHASHSEED='0', PYTHONPATH=env.VERIF))
+                outs.append(json.load(open(op))['digests'][-1])
+        if outs[0] != outs[1]:
+            return [fail('history-dependent', 'parsing %s alone and after %d earlier parses differs'
+                         % (short(repr(p['src']), 80), len(p['before'])))]
+        return []
 
     # ---- per-case workload ---------------------------------------------------
     def cases(self, tier, seed, want):
@@ -265,7 +315,7 @@ class C17(Prop):
                 subprocess.run([env.PYTHON, '-B', '-m', 'tsv.props.c17_child', cp, op],
                                cwd=env.VERIF, check=True,
                                env=dict(os.environ, PYTHONHASHSEED=str(s), PYTHONPATH=env.VERIF))
-                outs.append(json.load(open(op))[0])
+                outs.append(json.load(open(op))['digests'][0])
         if outs[0] != outs[1]:
             return [fail('hash-seed-dependent', 'parsing %s differs under PYTHONHASHSEED=%s'
                          % (short(repr(p['src']), 80), p['seeds']))]
@@ -377,6 +427,8 @@ class C17(Prop):
             g.append('fewer than 2000 interleavings executed')
         if c.get('hashseed_interpreters', 0) < (8 if tier == 'quick' else 64):
             g.append('hash-seed sweep incomplete (%s interpreters)' % c.get('hashseed_interpreters'))
+        if c.get('order_interpreters', 0) < (6 if tier == 'quick' else 16):
+            g.append('order sweep incomplete (%s interpreters)' % c.get('order_interpreters'))
         for f in ('split', 'chunks', 'list-of-lines', 'generator', 'StringIO', 'file'):
             if c.get('form:' + f, 0) < 100:
                 g.append('input form %s used fewer than 100 times' % f)
